@@ -141,7 +141,7 @@ pub fn aux_increment(spec: &AirSpec, ctx: &Ctx, main: &[Vec<u128>], rands: &[El]
     if nr >= 2 {
         v = ctx.add(&v, &ctx.mul_base(&rands[(j + 1) % nr], ml));
     }
-    v
+    ctx.pow(&v, spec.aux_pow.max(1) as u128)
 }
 
 /// honest auxiliary columns (running sums, then the Lagrange kernel column if requested)
